@@ -15,7 +15,16 @@ def run(tier, seed, replay_rows=None):
     ck.rule = RULES["C04"]
     ck.assumptions = ["free-running runs: events are logged by the harness's own scenario function / hook function under one mutex; "
                       "only invariants that are sound for that log order are checked (see DESIGN.md)"]
+    kw = dict(workers=16, timeout=1800)
+    for cfg in ("MC_TriggerPool_usable.cfg", "MC_TriggerPool_quick.cfg"):
+        r = vlib.run_tlc("TriggerPool", cfg, **kw)
+        vlib.require_tlc_ok(r, cfg)
+        ck.add_tlc(cfg, r)
     runtraces.check(ck, "C04", rows=replay_rows)
+    if replay_rows is None:
+        # cooperative pool schedules (idle-with-pending clause) and the free-running all-workers-usable stress
+        runtraces.extra(ck, "C04", "c02", "c02.ndjson")
+        runtraces.extra(ck, "C04", "c02stress", "c02stress.ndjson")
     return ck.finish()
 
 
